@@ -6,6 +6,9 @@ Regenerated on every run into coq/gen/G_Pool.v:
   gen_discard   : bool -> nat -> bool  the guard of the discard branch of ``_return_worker`` under the lock
   gen_evict     : nat -> nat -> bool   the guard in front of ``_evict_oldest_locked()``
   gen_track     : bool                 whether the client maintains ``_call_in_flight`` / ``_drained``
+  gen_drains    : drains               per drain loop of ``StreamSession.close`` / ``.cancel``: the exception classes it
+                                       swallows and whether ``_drained = True`` is set although a swallowed exception
+                                       (not the end-of-stream marker) ended the loop
   gen_cfg       : cfg
 
 Besides the expressions, the *shape* of the surrounding code is checked (statement order of the locked section of
@@ -184,6 +187,117 @@ def return_worker_guards(pool_py: Path) -> tuple[str, str]:
 
 
 # ---- client tracking -------------------------------------------------------------------------------
+_IGNORED_NARROW = {"BrokenPipeError", "ConnectionResetError", "ConnectionAbortedError", "ConnectionError", "EOFError", "TimeoutError"}
+
+
+def _classes(nodes: list[ast.AST], site: str) -> tuple[set[str], bool]:
+    """exception class expressions -> (subset of {XPlain, XOs, XRpc, XArrow} they catch, StopIteration caught?)"""
+    out: set[str] = set()
+    stop = False
+    for n in nodes:
+        name = n.id if isinstance(n, ast.Name) else (ast.unparse(n) if isinstance(n, ast.Attribute) else None)
+        if name is None:
+            raise TranslationBroken(site, f"unsupported exception class expression {ast.dump(n)[:80]}")
+        if name == "StopIteration":
+            stop = True
+        elif name in ("Exception", "BaseException"):
+            out |= {"XPlain", "XOs", "XRpc", "XArrow"}
+            stop = True
+        elif name == "OSError":
+            out.add("XOs")
+        elif name == "RpcError":
+            out.add("XRpc")
+        elif name in ("pa.ArrowInvalid", "ArrowInvalid", "_TRANSPORT_ERRORS"):
+            out.add("XArrow")
+        elif name in _IGNORED_NARROW:
+            pass  # narrower than the plain OSError the model's XOs stands for
+        else:
+            raise TranslationBroken(site, f"exception class {name} is not one the model distinguishes")
+    return out, stop
+
+
+def drain_shape(client_py: Path, method: str) -> tuple[set[str], bool, bool]:
+    """The drain loop at the end of StreamSession.close / .cancel.
+
+    Returns (classes swallowed, is _drained set although a swallowed exception ended the loop, does the method
+    maintain _drained at all).  Two shapes are accepted:
+
+      with contextlib.suppress(<classes>):      try:
+          for ...: <drain>                          for ...: <drain>
+      ...                                       except StopIteration:
+      self._drained = True                          self._drained = True
+                                                except (<classes>):
+                                                    pass            # or: self._drained = True
+    """
+    site = f"{client_py}:StreamSession.{method}:drain"
+    fn = _fn(_cls(_parse(client_py), "StreamSession", site), method, site)
+    at = [i for i, st in enumerate(fn.body) if "_read_batch_with_log_check" in ast.unparse(st)]
+    if len(at) != 1:
+        raise TranslationBroken(site, f"expected exactly one top-level statement draining the output, found {len(at)}")
+    st = fn.body[at[0]]
+    total_sets = ast.unparse(fn).count("self._drained = True")
+    if any(isinstance(n, (ast.Assign, ast.AugAssign, ast.AnnAssign)) and "_drained" in ast.unparse(n) and ast.unparse(n) != "self._drained = True" for n in ast.walk(fn)):
+        raise TranslationBroken(site, "_drained is assigned something other than True")
+
+    def is_loop(body: list[ast.stmt]) -> bool:
+        return len(body) == 1 and isinstance(body[0], ast.For) and not body[0].orelse and "_read_batch_with_log_check" in ast.unparse(body[0]) and "_drained" not in ast.unparse(body[0])
+
+    if isinstance(st, ast.With):
+        if len(st.items) != 1 or not (isinstance(st.items[0].context_expr, ast.Call) and ast.unparse(st.items[0].context_expr.func) in ("contextlib.suppress", "suppress")) or st.items[0].context_expr.keywords:
+            raise TranslationBroken(site, "drain loop is not under contextlib.suppress(...)")
+        if not is_loop(st.body):
+            raise TranslationBroken(site, "the suppress block is not just the drain loop")
+        classes, stop = _classes(list(st.items[0].context_expr.args), site)
+        if not stop:
+            raise TranslationBroken(site, "StopIteration (end of stream) is not handled by the drain")
+        after = [i for i, x in enumerate(fn.body) if ast.unparse(x) == "self._drained = True"]
+        if total_sets != len(after) or len(after) > 1 or (after and after[0] < at[0]):
+            raise TranslationBroken(site, "_drained = True is set somewhere other than once, at top level, after the drain loop")
+        if any(isinstance(x, ast.Return) for x in fn.body[at[0] : (after[0] if after else at[0])]):
+            raise TranslationBroken(site, "return between the drain loop and _drained = True")
+        # no _drained at all (source before the repair): "closed" is all the pool looks at, i.e. as good as marked
+        return classes, True, bool(after)
+    if isinstance(st, ast.Try):
+        if st.orelse or st.finalbody or not is_loop(st.body):
+            raise TranslationBroken(site, "try around the drain loop has an else/finally or more than the loop")
+        classes: set[str] = set()
+        marks_: list[bool] = []
+        stop_sets = False
+        seen_sets = 0
+        for h in st.handlers:
+            if h.type is None:
+                raise TranslationBroken(site, "bare except around the drain loop")
+            nodes = list(h.type.elts) if isinstance(h.type, ast.Tuple) else [h.type]
+            body = [ast.unparse(x) for x in h.body]
+            if body not in (["pass"], ["self._drained = True"]):
+                raise TranslationBroken(site, f"handler body {body} is neither `pass` nor `self._drained = True`")
+            sets_here = body == ["self._drained = True"]
+            seen_sets += sets_here
+            if len(nodes) == 1 and ast.unparse(nodes[0]) == "StopIteration":
+                stop_sets = sets_here
+                continue
+            cl, stop = _classes(nodes, site)
+            if stop:
+                raise TranslationBroken(site, "StopIteration shares a handler with other classes")
+            classes |= cl
+            marks_.append(sets_here)
+        if not any(len(([*h.type.elts] if isinstance(h.type, ast.Tuple) else [h.type])) == 1 and ast.unparse(h.type) == "StopIteration" for h in st.handlers):
+            raise TranslationBroken(site, "StopIteration (end of stream) is not handled by the drain")
+        if total_sets != seen_sets:
+            raise TranslationBroken(site, "_drained = True is also set outside the handlers of the drain loop")
+        if len(set(marks_)) > 1:
+            raise TranslationBroken(site, "handlers disagree on setting _drained")
+        if not stop_sets and seen_sets:
+            raise TranslationBroken(site, "_drained is set on an exception but not at the end of the stream")
+        return classes, bool(marks_ and marks_[0]), stop_sets
+    raise TranslationBroken(site, f"unsupported drain statement {type(st).__name__}")
+
+
+def _swallow_fn(name: str, classes: set[str]) -> str:
+    arms = " | ".join(f"{c} => {'true' if c in classes else 'false'}" for c in ("XPlain", "XOs", "XRpc", "XArrow"))
+    return f"Definition {name} (x : xcls) : bool := match x with {arms} end.\n"
+
+
 def client_tracks(client_py: Path, pool_py: Path) -> bool:
     """True iff the client marks calls in flight (both callers) and sessions drained (close and cancel);
     False iff it does none of it; anything in between is a broken translation."""
@@ -197,17 +311,7 @@ def client_tracks(client_py: Path, pool_py: Path) -> bool:
         src = ast.unparse(caller)
         marks.append("_mark_in_flight(transport, True)" in src and src.count("_mark_in_flight(transport, in_flight)") >= 1)
     for m in ("close", "cancel"):
-        fn = _fn(sess, m, site)
-        # top-level `self._drained = True` somewhere after the drain loop (the `with suppress(...)` around the
-        # `_read_batch_with_log_check` loop), nowhere else
-        drain_at = [i for i, st in enumerate(fn.body) if isinstance(st, ast.With) and "_read_batch_with_log_check" in ast.unparse(st)]
-        sets = [i for i, st in enumerate(fn.body) if ast.unparse(st) == "self._drained = True"]
-        nested = ast.unparse(fn).count("self._drained = True") - len(sets)
-        if len(drain_at) != 1:
-            raise TranslationBroken(site, f"StreamSession.{m}: expected exactly one drain loop")
-        if nested or len(sets) > 1 or (sets and sets[0] < drain_at[0]):
-            raise TranslationBroken(site, f"StreamSession.{m}: _drained is set somewhere other than after the drain loop")
-        marks.append(bool(sets))
+        marks.append(drain_shape(client_py, m)[2])
     slots = "_call_in_flight" in ast.unparse(_cls(_parse(pool_py), "_PooledTransport", site))
     marks.append(slots)
     helper = any(isinstance(n, ast.FunctionDef) and n.name == "_mark_in_flight" for n in tree.body)
@@ -225,11 +329,16 @@ def gen_pool(repo: Path) -> str:
     ab = abandoned_expr(pool_py)
     disc, ev = return_worker_guards(pool_py)
     tr = client_tracks(client_py, pool_py)
+    ccl, cmark, _ = drain_shape(client_py, "close")
+    xcl, xmark, _ = drain_shape(client_py, "cancel")
     return (
         "From Coq Require Import List Arith Bool.\nFrom VGI Require Import M_Pool.\n"
         f"Definition gen_abandoned (f : flags) : bool := {ab}.\n"
         f"Definition gen_discard (closed : bool) (m : nat) : bool := {disc}.\n"
         f"Definition gen_evict (total m : nat) : bool := {ev}.\n"
         f"Definition gen_track : bool := {'true' if tr else 'false'}.\n"
-        "Definition gen_cfg : cfg := mkCfg gen_abandoned gen_discard gen_evict gen_track.\n"
+        + _swallow_fn("gen_close_swallow", ccl)
+        + _swallow_fn("gen_cancel_swallow", xcl)
+        + f"Definition gen_drains : drains := mkDrains gen_close_swallow {'true' if cmark else 'false'} gen_cancel_swallow {'true' if xmark else 'false'}.\n"
+        "Definition gen_cfg : cfg := mkCfg gen_abandoned gen_discard gen_evict gen_track gen_drains.\n"
     )
